@@ -8,9 +8,22 @@ RpycModel/Srv/Registry.lean, helper lemmas are in RpycModel/Srv/Registry*.lean.
 Reading of the statement: *membership* is the stored table, seen through `view : (NAME code, address code) ↦
 last refresh` (codes identify keys up to Python's `==`).  An entry exists from its first register until an
 unregister or until a query prunes it; refreshing a stale entry that no query has pruned yet keeps it the same
-member.  `intent` is what a datagram means: `none` for everything that is not a well-formed command (wrong
-magic, unknown or non-text command, wrong argument count or types, undecodable bytes), otherwise the query /
-register / unregister it asks for.  All theorems are for every environment (`Env`: `str.upper`/`str.lower` of
+member.  `intent` is the MODEL'S OWN reading of what a datagram means (it is built from the same helpers `_work`'s
+model uses - `load`, `unpack3'`, `lookupCmd`, `iterate'`, `pyUpper`, `allStr` - so it is a convenient name for the
+refinement theorems, not an independent specification): `none` for everything that is not a well-formed command,
+otherwise the query / register / unregister it asks for.  The clauses of the statement about malformed datagrams and
+about "registrations it does not legitimately name" are therefore ALSO stated without `intent`:
+`not_a_command_changes_nothing` (on the decoded value) and `touches_only_own_or_stale` (on the sender's host).
+
+Kinds of theorem in this file.  Obligations on generated facts (a changed constant / code shape breaks them by name):
+commands_are_modelled, client_requests_understood, reregister_within_pruning, tcp_recv_closes_unreplied,
+all_brine_values_hashable, logger_warn_survives, reply_dump_is_guarded, datagram_bounded.  Structural facts the property
+theorems are read with: query_order, registration_order, stored_iff_view, received_is_genuine, tcp_client_is_workStep,
+tcp_silent_step.  Counterexamples: C18_counterexample_unguarded_reply_dump (repaired defect),
+C18_counterexample_silent_client_outlasts_default_client (known finding).  Everything else carries the property.
+
+Case-insensitivity is `str.upper()`: exact for ASCII; for other text it is whatever Python's `upper()` identifies
+('straße' and 'STRASSE' meet, 'STRAẞE' does not; 'İstanbul' and its `lower()` do not).  All theorems are for every environment (`Env`: `str.upper`/`str.lower` of
 non-ASCII text, frozenset iteration order), every pruning interval, every clock, every byte string.
 -/
 namespace Rpyc.Props.C18
@@ -233,11 +246,14 @@ theorem touches_only_own_or_stale (env : Env) (pruning : Int) (sv : Services) (h
     ∨ (∃ t, view sv n x = some t ∧ t < now - pruning ∧ view (workStep env pruning sv host dgram now).sv n x = none) :=
   sender_frame env pruning sv host dgram now hinv n x hch
 
-/-- **The statement's classes of malformed datagram, stated on the decoded value itself** (only C04's `load` and the
-literal shape of the value appear, not the model's unpacking / lookup helpers): undecodable bytes; a value that cannot
-be unpacked; a tuple that is not a triple; a first field that is not the magic text; a command that is not text; a
-text command that is none of the three after lower-casing; a tuple of arguments of the wrong length.  Each changes
-nothing at all: table identical, no notification, no reply, loop running. -/
+/-- **The statement's classes of malformed datagram, stated on the decoded value.**  What appears in the statement:
+C04's `load`, the literal shape of the decoded value, `strLower` for the command's `lower()`, the generated command table
+through `lookupCmd` (argument count, and which command a text names), `allStr` ("every item is text") and `notIterable`;
+NOT `intent`, `unpack3'`, `dispatch`.  The classes: undecodable bytes; a value that cannot be unpacked; a tuple that is
+not a triple; a first field that is not the magic text; a command that is not text; a text command that is none of the
+three after lower-casing; a tuple of arguments of the wrong length; arguments of the wrong types (a query name that is
+neither text nor bytes; register names that cannot be iterated or contain a non-text item).  Each changes nothing at all:
+table identical, no notification, no reply, loop running. -/
 theorem not_a_command_changes_nothing (env : Env) (pruning : Int) (sv : Services) (host : Val) (d : Bytes) (now : Int) :
     (∀ e, load d = .error e → (workStep env pruning sv host d now).Noop sv)
     ∧ (∀ v, load d = .ok v → notIterable v = true → (workStep env pruning sv host d now).Noop sv)
@@ -247,6 +263,14 @@ theorem not_a_command_changes_nothing (env : Env) (pruning : Int) (sv : Services
     ∧ (∀ m s a, load d = .ok (.tuple [m, .str s, a]) → strLower env s ∉ [nmQuery, nmRegister, nmUnregister] →
         (workStep env pruning sv host d now).Noop sv)
     ∧ (∀ m s args c, load d = .ok (.tuple [m, .str s, .tuple args]) → lookupCmd env (.str s) = some c → args.length ≠ c.2 →
+        (workStep env pruning sv host d now).Noop sv)
+    ∧ (∀ m s n name, load d = .ok (.tuple [m, .str s, .tuple [name]]) → lookupCmd env (.str s) = some (.query, n) →
+        (∀ t, name ≠ .str t) → (∀ b, name ≠ .bytes b) → (workStep env pruning sv host d now).Noop sv)
+    ∧ (∀ m s n names port, load d = .ok (.tuple [m, .str s, .tuple [.tuple names, port]]) →
+        lookupCmd env (.str s) = some (.register, n) → (∃ x ∈ names, ∀ t, x ≠ .str t) →
+        (workStep env pruning sv host d now).Noop sv)
+    ∧ (∀ m s n names port, load d = .ok (.tuple [m, .str s, .tuple [names, port]]) →
+        lookupCmd env (.str s) = some (.register, n) → notIterable names = true →
         (workStep env pruning sv host d now).Noop sv) :=
   ⟨fun e h => noop_of_load_error env pruning sv host d now e h,
    fun v h hv => noop_of_not_iterable env pruning sv host d now v h hv,
@@ -254,7 +278,11 @@ theorem not_a_command_changes_nothing (env : Env) (pruning : Int) (sv : Services
    fun m c a h hm => noop_of_wrong_magic env pruning sv host d now m c a h hm,
    fun m c a h hc => noop_of_non_text_command env pruning sv host d now m c a h hc,
    fun m s a h hs => noop_of_unknown_command env pruning sv host d now m a s h hs,
-   fun m s args c h hc hn => noop_of_wrong_arg_count env pruning sv host d now m s args c h hc hn⟩
+   fun m s args c h hc hn => noop_of_wrong_arg_count env pruning sv host d now m s args c h hc hn,
+   fun m s n name h hc h1 h2 => noop_of_query_bad_name env pruning sv host d now m name s n h hc h1 h2,
+   fun m s n names port h hc hb =>
+     noop_of_register_bad_names env pruning sv host d now m port s n names h hc ((allStr_none_iff names).mpr hb),
+   fun m s n names port h hc hb => noop_of_register_names_not_iterable env pruning sv host d now m names port s n h hc hb⟩
 
 /-- **Case-insensitive.**  A query sees only the upper-cased name: two spellings with the same `upper()` give the same
 reply, the same pruning, the same table; for ASCII names lower- or upper-casing a spelling does not change its
